@@ -202,11 +202,20 @@ func (s *SourceControl) ConfigureRoachSource(args *RoachSourceConfig, reply *boo
 // run the closure f at an appropriate point in the data handling cycle
 // and return any error sent on s.queuedRequests.
 func (s *SourceControl) runLaterIfActive(f func()) error {
-	if !s.isSourceActive {
-		return fmt.Errorf("no source is active")
+	// The source may have stopped on its own (error, timeout) since the last request that
+	// refreshed s.isSourceActive, so check before trusting the flag.
+	s.handlePossibleStoppedSource()
+	for s.isSourceActive {
+		select {
+		case s.queuedRequests <- f:
+			return <-s.queuedResults
+		case <-time.After(100 * time.Millisecond):
+			// The core loop has not taken the request yet. If that is because the source ended in
+			// the meantime, nobody ever will: check again rather than block forever.
+			s.handlePossibleStoppedSource()
+		}
 	}
-	s.queuedRequests <- f
-	return <-s.queuedResults
+	return fmt.Errorf("no source is active")
 }
 
 // MixFractionObject is the RPC-usable structure for ConfigureMixFraction
@@ -305,6 +314,7 @@ type SizeObject struct {
 // ConfigurePulseLengths is the RPC-callable service to change pulse record sizes.
 func (s *SourceControl) ConfigurePulseLengths(sizes SizeObject, reply *bool) error {
 	*reply = false // handle the case that sizes fails the validation tests and we return early
+	s.handlePossibleStoppedSource()
 	if !s.isSourceActive {
 		return fmt.Errorf("no source is active")
 	}
